@@ -28,7 +28,8 @@ import (
 type Event struct {
 	Op string  `json:"op"`
 	A  []int64 `json:"a,omitempty"`
-	N  string  `json:"n,omitempty"` // display name only (menu entries); identity is Op+A
+	N  string  `json:"n,omitempty"` // display name only (menu entries); identity is Op+A(+S)
+	S  string  `json:"s,omitempty"` // payload (e.g. a datagram in hex)
 }
 
 func (e Event) String() string {
@@ -65,6 +66,9 @@ func HistString(h []Event) string {
 type Viol struct {
 	Sig  string `json:"sig"`
 	What string `json:"what"`
+	// Ev, if set, replaces the last event of the history in the replay (a sweep event reports the single
+	// case that failed instead of the whole sweep)
+	Ev *Event `json:"ev,omitempty"`
 }
 
 type StepResult struct {
@@ -476,8 +480,13 @@ func Explore(run *evid.Run, spec Spec, tier string, smp *evid.Samples) Stats {
 					st.Tags[t]++
 				}
 				h := append(append([]Event{}, frontier[i]...), s.Ev)
+				hFull := h
 				suspect := false
 				for _, v := range s.Viol {
+					h := hFull
+					if v.Ev != nil {
+						h = append(append([]Event{}, frontier[i]...), *v.Ev)
+					}
 					known := run.IsKnownSig(v.Sig)
 					if !known {
 						suspect = true
@@ -684,4 +693,111 @@ func ReplayMain(path string, times int) int {
 		return 1
 	}
 	return 0
+}
+
+// ExploreTargets expands a fixed list of histories (each reached state and its one-step successors) instead
+// of searching breadth-first: used where one expansion is itself a large exhaustive sweep.
+func ExploreTargets(run *evid.Run, spec Spec, tier string, targets [][]Event, smp *evid.Samples) Stats {
+	nw := runtime.NumCPU()
+	if v := os.Getenv("VERIF_WORKERS"); v != "" {
+		fmt.Sscan(v, &nw)
+	}
+	if nw > len(targets) {
+		nw = len(targets)
+	}
+	st := Stats{Tags: map[string]int64{}, Exhaustive: true}
+	seen := map[string]struct{}{}
+	outcomes := map[string]struct{}{}
+	results := make([]jobResult, len(targets))
+	jobs := make(chan int, len(targets))
+	for i := range targets {
+		jobs <- i
+	}
+	close(jobs)
+	var wg sync.WaitGroup
+	for k := 0; k < nw; k++ {
+		wg.Add(1)
+		go func() {
+			defer wg.Done()
+			w := startWorker(spec, tier)
+			defer func() { w.stop() }()
+			for i := range jobs {
+				if !w.alive {
+					w = startWorker(spec, tier)
+				}
+				results[i] = w.runJob(job{ID: i, Hist: targets[i]})
+			}
+		}()
+	}
+	wg.Wait()
+	confirmW := startWorker(spec, tier)
+	defer func() { confirmW.stop() }()
+	for i, r := range results {
+		st.Events += int64(r.events)
+		seen[fmt.Sprintf("target-%d", i)] = struct{}{}
+		if smp != nil {
+			smp.Offer(HistString(targets[i]))
+		}
+		for _, s := range r.succ {
+			st.Transitions++
+			outcomes[s.Obs] = struct{}{}
+			seen[s.Key] = struct{}{}
+			for _, t := range s.Tags {
+				st.Tags[t]++
+			}
+			for _, v := range s.Viol {
+				h := append(append([]Event{}, targets[i]...), s.Ev)
+				if v.Ev != nil {
+					h = append(append([]Event{}, targets[i]...), *v.Ev)
+				}
+				note := ""
+				if !run.IsKnownSig(v.Sig) {
+					hits := 0
+					for k := 0; k < 5; k++ {
+						if !confirmW.alive {
+							confirmW = startWorker(spec, tier)
+						}
+						cr := confirmW.runJob(job{ID: -1, Hist: h, Confirm: true})
+						for _, x := range cr.viol {
+							if x.Sig == v.Sig {
+								hits++
+								break
+							}
+						}
+						if cr.crashed {
+							hits++
+						}
+					}
+					if hits == 0 {
+						st.Unconfirmed++
+						fmt.Printf("WARNING unconfirmed observation %s on [%s]\n", v.Sig, HistString(h))
+						if st.Unconfirmed <= 3 {
+							b, _ := json.MarshalIndent(map[string]interface{}{"property": spec.Prop, "signature": v.Sig, "engine": "E1-seqx", "scenario": spec.Scenario,
+								"what": v.What, "replay": map[string]interface{}{"tier": tier, "history": h}}, "", " ")
+							_ = os.MkdirAll(evid.Dir()+"/replays/"+spec.Prop, 0o755)
+							_ = os.WriteFile(fmt.Sprintf("%s/replays/%s/unconfirmed-%d.json", evid.Dir(), spec.Prop, st.Unconfirmed), b, 0o644)
+						}
+						continue
+					}
+					note = fmt.Sprintf(" (reproduced %d/5 re-executions)", hits)
+				}
+				run.Report(evid.Violation{Signature: v.Sig, Engine: "E1-seqx", Scenario: spec.Scenario, What: v.What + note + " -- after history: " + HistString(h),
+					Replay: map[string]interface{}{"scenario": spec.Scenario, "tier": tier, "history": h}})
+			}
+		}
+		if r.crashed {
+			st.Crashes++
+			h := targets[i]
+			if r.enabled != nil && r.crashAt < len(r.enabled) {
+				h = append(append([]Event{}, targets[i]...), r.enabled[r.crashAt])
+			}
+			run.Report(evid.Violation{Signature: spec.Prop + ":crash:" + crashSite(r.stderr), Engine: "E1-seqx", Scenario: spec.Scenario,
+				What:   "the process running the UPF died (unrecovered panic or fatal runtime error) -- history: " + HistString(h) + " -- stderr: " + evid.Short(r.stderr, 1500),
+				Replay: map[string]interface{}{"scenario": spec.Scenario, "tier": tier, "history": h}})
+		}
+	}
+	st.States = int64(len(seen))
+	st.Outcomes = len(outcomes)
+	st.DepthDone = 1
+	return st
 }
